@@ -392,9 +392,9 @@ pub fn run(prop: PProp, args: &Args, seed: u64, tier: &str, report: &Report) -> 
     }
     let scale = args.u64("--scale", 1);
     let cfg = match prop {
-        PProp::C16 => StreamCfg { playouts: if thorough { 100_000 } else { 4_000 } * scale, playout_len: 100, synth: if thorough { 8_000_000 } else { 400_000 } * scale, synth_ep: 20_000, wild: true, focus: false, dfs_depth: if thorough { 3 } else { 2 } },
-        PProp::C18 => StreamCfg { playouts: if thorough { 60_000 } else { 2_500 } * scale, playout_len: 100, synth: if thorough { 4_000_000 } else { 150_000 } * scale, synth_ep: 20_000, wild: true, focus: true, dfs_depth: if thorough { 3 } else { 2 } },
-        PProp::C20 => StreamCfg { playouts: if thorough { 80_000 } else { 3_000 } * scale, playout_len: 100, synth: if thorough { 5_000_000 } else { 200_000 } * scale, synth_ep: 10_000, wild: true, focus: true, dfs_depth: if thorough { 3 } else { 2 } },
+        PProp::C16 => StreamCfg { playouts: if thorough { 100_000 } else { 4_000 } * scale, playout_len: 100, synth: if thorough { 8_000_000 } else { 400_000 } * scale, synth_ep: 20_000, wild: true, focus: false, dfs_depth: if thorough { 3 } else { 2 }, three_men: thorough },
+        PProp::C18 => StreamCfg { playouts: if thorough { 60_000 } else { 2_500 } * scale, playout_len: 100, synth: if thorough { 4_000_000 } else { 150_000 } * scale, synth_ep: 20_000, wild: true, focus: true, dfs_depth: if thorough { 3 } else { 2 }, three_men: thorough },
+        PProp::C20 => StreamCfg { playouts: if thorough { 80_000 } else { 3_000 } * scale, playout_len: 100, synth: if thorough { 5_000_000 } else { 200_000 } * scale, synth_ep: 10_000, wild: true, focus: true, dfs_depth: if thorough { 3 } else { 2 }, three_men: thorough },
     };
     run_shards(16, 64, |shard| {
         let mut l = Local::default();
